@@ -988,6 +988,9 @@ func (req *IdpAuthnRequest) getSPEncryptionCert() (*x509.Certificate, error) {
 	certStr := ""
 	for _, keyDescriptor := range req.SPSSODescriptor.KeyDescriptors {
 		if keyDescriptor.Use == "encryption" {
+			if len(keyDescriptor.KeyInfo.X509Data.X509Certificates) == 0 {
+				return nil, fmt.Errorf("encryption key descriptor contains no certificate")
+			}
 			certStr = keyDescriptor.KeyInfo.X509Data.X509Certificates[0].Data
 			break
 		}
